@@ -51,6 +51,20 @@ def c04_s(draw, pid, tier, opts=None):
         for e in base["events"]:
             if e[0] in ("X", "x") and e[2] in ren:
                 e[2] = ren[e[2]]
+    logins = [s_[0] for s_ in base["conf"]["services"] if s_[1] in ("login", "login-ipr", "combined")]
+    long_answer = None
+    if logins and "iauth_xquery" in base["conf"]["modules"] and draw(st.integers(0, 11)) == 0:
+        # scenario "the query that was never sent": a client answers a challenge with a response so long that the
+        # query line does not fit the daemon's output line; whether the service owes an answer afterwards is read off
+        # the query the daemon did (or did not) write, and a reply of that service follows
+        S = draw(st.sampled_from(logins))
+        cid = draw(st.sampled_from([5, 1, 77]))
+        ans = draw(st.sampled_from(["R" * 1050, "R" * 1050, "w " * 520, "R" * 985, "R" * 2100, "short"]))
+        ev = [["C", cid, draw(st.sampled_from(ep.IPS)), 4242], ["N", cid, "host.example.org"], ["u", cid, "ident"], ["n", cid, "Nick"],
+              ["U", cid, "user", "real name"], ["P", cid, "%s acct pw" % draw(st.sampled_from(["+x!", "+!", "+x"]))],
+              ["X", cid, S, "MORE say friend", "cur"], ["P", cid, ans]]
+        long_answer = (cid, S, len(base["events"]) + len(ev))
+        base["events"] = base["events"] + [e for e in ev] + [["H", cid], ["T", cid]]
     n = len(base["events"])
     ids = sorted({e[1] for e in base["events"] if e[0] == "C"})
     stray = {
@@ -66,6 +80,11 @@ def c04_s(draw, pid, tier, opts=None):
         "twice": draw(st.integers(0, 4)) == 0,      # the same stray line arrives twice in a row
         "crtail": draw(st.integers(0, 9)) == 0,
     }
+    if long_answer is not None:
+        stray.update({"kind": "not_awaited", "id": long_answer[0], "svc_name": long_answer[1], "pos": long_answer[2], "crtail": False,
+                      "reply": draw(st.sampled_from(["OK acct:1", "NO go away", "OK", "AGAIN once more", "MORE another riddle"]))})
+        base["stray"] = stray
+        return base
     # optional reloads in the middle of the history (service table edited): both runs perform them
     if draw(st.integers(0, 3)) == 0 and n > 2:
         svcs = [list(x) for x in base["conf"]["services"]]
